@@ -68,13 +68,21 @@ def harnesses(t):
     tuples = [(1, 1, 1), (2, 2, 2), (2, 1, 0)] + ([(3, 3, 3), (1, 4, 2)] if t == "thorough" else [])
     for tp in tuples:
         tag = "".join(map(str, tp))
-        hs.append(ch.H(f"c15/argv/{tag}", f'''def argv_{tag}(n: int, has_key: bool, s1: str, s2: str, s3: str, out: str, fname: str) -> bool:
+        hs.append(ch.H(f"c15/argv/{tag}", f'''def argv_{tag}(n: int, has_key: bool, has_range: bool, mfm: bool, ofm: bool, s1: str, s2: str, s3: str, out: str, fname: str) -> bool:
     """
     pre: 0 <= n <= 3 and len(s1) == {tp[0]} and len(s2) == {tp[1]} and len(s3) == {tp[2]} and len(out) <= 3 and 1 <= len(fname) <= 2
     post: _
     """
     secs = [s1, s2, s3][:n]
-    JASMConfig.get_instance().load_config({{"sections": list(secs)}} if has_key else {{}})
+    conf = {{"sections": list(secs)}} if has_key else {{}}
+    # options that belong to other features: the disassembler invocation must not depend on them
+    if has_range:
+        conf["valid_addr_range"] = {{"min": "0x0", "max": "0x8"}}
+    if mfm:
+        conf["mnemonics-full-match"] = True
+    if ofm:
+        conf["operands-full-match"] = True
+    JASMConfig.get_instance().load_config(conf)
     if not has_key:
         secs = []
     _Subprocess.calls = []
@@ -94,7 +102,7 @@ def harnesses(t):
     argv, kw = _Subprocess.calls[0]
     return same_parser and argv == want and kw.get("capture_output") is True and kw.get("text") is True and kw.get("check") is True \\
         and _RecordingParser.seen == [out] and _Consumer.finalized == 1
-''', timeout=T, prelude=PRE, key="binary_route", note="symbolic sections list (0-3 names), symbolic objdump output text, symbolic file name"))
+''', timeout=T, prelude=PRE, key="binary_route", note="symbolic sections list (0-3 names), symbolic presence of valid_addr_range and the full-match flags, symbolic objdump output text, symbolic file name"))
     hs.append(ch.H("c15/two_runs", '''def two_runs(n: int, s1: str, f1: str, f2: str) -> bool:
     """
     pre: 0 <= n <= 1 and len(s1) == 2 and len(f1) == 1 and len(f2) == 1
@@ -159,6 +167,9 @@ def differential(run, t):
             doc = dict(rule_plain)
             if secs is not None:
                 doc = {"config": {"sections": secs}, "pattern": rule_plain["pattern"]}
+            if secs == [".text"]:
+                # other options ride along: a tagging range and the full-match flags must not change what is disassembled
+                doc["config"].update({"valid_addr_range": {"min": "0x1000", "max": "0x1040"}, "mnemonics-full-match": True})
             argv = ["objdump", "-d", "-M", "att"] + [x for s in (secs or []) for x in ("-j", s)] + [b]
             p = subprocess.run(argv, capture_output=True, text=True)
             if p.returncode != 0:
